@@ -146,10 +146,11 @@ class Conversation(object):
     def extra_fields(self, trailers=False):
         rng = self.rng
         pool = [(b'accept', b'*/*'), (b'user-agent', b'conv/1.0'), (b'X-Mixed-Case', b'Value'), (b'x-pad', b'  padded  '),
+                (b'x-crlf', b'10.0.0.1\r\n'), (b'x-ws', b'\x0bv\x0c'), (b' x-name-pad\t', b'\tv '), (b'x-text-pad', b' text\n'),
                 (b'cookie', b'a=b'), (b'cookie', b'c=d; e=f'), (b'x-empty', b''), (b'x-long', b'v' * rng.choice([10, 300, 5000])),
                 (b'authorization', b'secret'), (b'x-utf8', 'é'.encode('utf-8')), (b'te', b'trailers')]
         if trailers:
-            pool = [(b'x-trailer', b'done'), (b'X-Checksum', b'abc123'), (b'x-t2', b' spaced ')]
+            pool = [(b'x-trailer', b'done'), (b'X-Checksum', b'abc123'), (b'x-t2', b' spaced '), (b'x-t3', b'\rv\n')]
         out = []
         for _ in range(rng.randrange(0, 4)):
             n, v = rng.choice(pool)
